@@ -37,10 +37,17 @@ fn edge_strings() -> Vec<V> {
     STRINGS.iter().map(|s| V::str(*s)).collect()
 }
 
+/// Huge values of a u64 parameter: around 2^32, around the isize limit
+/// (2^63 +- 1: `with_capacity`-style pre-sizing panics beyond it) and around
+/// u64::MAX. Used for EVERY integer parameter whose value does not by itself
+/// amplify memory (results stay tiny because the receivers are tiny); only
+/// the count of `String.repeat` stays in 0..=3.
+const HUGE: [u64; 6] = [1 << 32, (1 << 63) - 1, 1 << 63, (1 << 63) + 1, u64::MAX - 1, u64::MAX];
+
 /// indices {0, 1, len-1, len, len+1} for every len that occurs (strings up to
-/// 5 bytes, lists up to 5 elements) = 0..=6, plus {2^32, 2^63, u64::MAX}
+/// 5 bytes, lists up to 5 elements) = 0..=6, plus the huge values
 fn edge_indices() -> Vec<V> {
-    ints((0..=6u64).chain(BIG).map(|x| x as i128))
+    ints((0..=6u64).chain(HUGE).map(|x| x as i128))
 }
 
 fn edge_prefixes() -> Vec<V> {
@@ -75,8 +82,10 @@ fn domain(p: P) -> Vec<V> {
     match p {
         P::Recv | P::RecvReplace | P::Str2 | P::BufStr | P::ElemStr => edge_strings(),
         P::Idx | P::ListIdx => edge_indices(),
+        // the only parameter that amplifies memory by its value
         P::Rep => ints(0..=3),
-        P::SplitN => ints((0..=3u64).chain(BIG).map(|x| x as i128)),
+        // `n` of splitn / rsplitn only bounds the number of pieces
+        P::SplitN => ints((0..=3u64).chain(HUGE).map(|x| x as i128)),
         P::U8 => ints(0..=u8::MAX as i128),
         P::I8 => ints(i8::MIN as i128..=i8::MAX as i128),
         P::U16 => wide_ints(0, u16::MAX as i128),
